@@ -525,6 +525,25 @@ impl Property for C19 {
                 ctx.label("attribute_with_amp_brace");
             }
         }
+        // (late draw) 34..60 nested block-level wrappers: indentation deeper than any fixed-size buffer
+        if src.ratio(1, 25) {
+            let depth = 34 + src.choice(27);
+            fn wrap_first(n: &mut ANode, depth: usize) -> bool {
+                if let ANode::Element(_) = n {
+                    let mut inner = std::mem::replace(n, ANode::Text(String::new()));
+                    for k in 0..depth {
+                        let name = if k % 2 == 0 { "div" } else { "section" };
+                        inner = ANode::Element(AElem { name: QName::new("", name), decls: vec![], attrs: vec![], children: vec![inner] });
+                    }
+                    *n = inner;
+                    return true;
+                }
+                n.children_mut().map(|ch| ch.iter_mut().any(|c| wrap_first(c, depth))).unwrap_or(false)
+            }
+            if wrap_first(&mut doc, depth) {
+                ctx.label("deep_chain_of_block_elements");
+            }
+        }
         // (late draw) a foreign namespace URI that needs escaping where it is written as an attribute value
         if src.ratio(1, 5) && uses(&doc, "urn:f") {
             replace_uri(&mut doc, "urn:f", "urn:f?a=1&b=\"2\"");
